@@ -21,6 +21,7 @@ import EtkVerif.Cfg.Lemmas
 import EtkVerif.Annot.Total
 import EtkVerif.Cfg.Pipeline
 import EtkVerif.Evm.Cancun
+import EtkVerif.Cfg.PipelineExact
 namespace EtkVerif.C05
 open Annot Smt Cfg Evm
 
@@ -169,5 +170,15 @@ theorem C05_cancun_counterexample (E : Env) (ω : Nat → Word) :
     decide
   · intro hne sat g' hr hin
     exact hne ((refine_subgraph sat _ g' hr).2.subset hin)
+
+/-- `C05_pipeline_setup` with the exact hypothesis: every block needs at most 65535
+input variables (`Annot.inputsNeeded`) instead of `popBudget ≤ 65535`.  The
+hypothesis is necessary: otherwise the annotate stage reports the `u16` counter
+overflow (`Pipeline.pipeline_refused_exact`, finding D20). -/
+theorem C05_pipeline_setup_exact (code : List Nat) (hb : ∀ b ∈ code, b < 256) (hlen : code.length ≤ 65536)
+    (hinputs : ∀ b ∈ Pipeline.blocks code, inputsNeeded Gen.cancun b.ops ≤ 65535) :
+    ∃ anns, Pipeline.annotateAll Gen.cancun (Pipeline.blocks code) = .ok anns ∧
+      Setup Gen.cancun (Pipeline.blocks code) anns :=
+  Pipeline.pipeline_setup_exact code hb hlen hinputs
 
 end EtkVerif.C05
